@@ -10,7 +10,27 @@ var commonStubs = []string{
 	"package initialisers of dependencies are not run; kcp's own init is interpreted",
 }
 
+var kcpStateAssumptions = []string{
+	"pre-states are arbitrary within INV_KCP (DESIGN.md §3.1): configuration via the real SetMtu/WndSize/NoDelay with symbolic arguments (windows 1..32768, interval 10..5000, MSS <= 1500), all scalar fields symbolic, queue shapes from a small concrete family",
+	"queued payload lengths are fixed small values (0..3 bytes) per slot; payload bytes are unconstrained (pool contents)",
+	"the millisecond clock is an arbitrary 32-bit value, constant within one API call",
+	"int is 64 bits (amd64)",
+}
+
 var checkSpecs = map[string]*checkSpec{
+	"C04": {
+		assumptions: append([]string{
+			"windows are set before traffic starts (the property's own scope)",
+			"Input harnesses carry state on one side of the connection at a time in the quick tier (the flush that Input may trigger is checked on its own from every state); thorough uses the full shape product",
+			"congestion-control arithmetic is checked for MSS in {1,4,1376} (non-linear in MSS)",
+		}, kcpStateAssumptions...),
+		stubs: commonStubs,
+		bounds: map[string]string{
+			"quick":    "one step (Input of an arbitrary datagram of 0..96 bytes holding at most one complete segment, both packet types, both ackNoDelay; flush FULL/ACKONLY; Recv with buffers 0,1,3,8; Send of 0..9 bytes) from every state of 7 (flush/Recv/Send) or 5+4 (Input) queue shapes with |snd_buf|,|snd_queue|,|rcv_queue|,|rcv_buf|,|acklist| <= 2; MTU in {50,60,1400} (cc: {25,28,1400})",
+			"thorough": "same steps from the full product of shapes (each queue 0..2), datagrams with up to two segments",
+		},
+		outside: "changing window sizes mid-traffic; the timeout-admission clause across several calls and UDPSession.Write admission are separate harnesses (see DESIGN.md)",
+	},
 	"C20": {
 		assumptions: []string{
 			"Discard is called with n >= 0 (a negative count is outside its documented domain and no caller passes one)",
